@@ -186,6 +186,7 @@ Theorem vec_ledger_balanced :
 Proof. exact vec_ledger_balanced_all. Qed.
 Print Assumptions vec_ledger_balanced.
 End VecPart.
+Export VecPart.
 
 (* ====================================================================== queue part.
    Model: C05/QueDefs.v (pointer-level: heap of ring nodes [w_h], two queue objects with their
@@ -285,3 +286,4 @@ Theorem que_setz_as_found_refuted :
 Proof. exact C07.QueFaultProofs.que_setz_as_found_refuted. Qed.
 Print Assumptions que_setz_as_found_refuted.
 End QuePart.
+Export QuePart.
